@@ -139,9 +139,10 @@ class temperature(PseudoNetCDFFile):
         self.rffile.infile.seek(0, 2)
         self.rffile.previous()
         self.end_time, self.end_date = self.rffile.read(self.id_fmt)
-        self.time_step_count = int(timediff(
-            (self.start_date, self.start_time),
-            (self.end_date, self.end_time)) // self.time_step) + 1
+        # count the records: the difference of two Julian dates is not a
+        # number of days when the file runs over New Year
+        nrecords = self.rffile.length // self.padded_size
+        self.time_step_count = int(nrecords // (self.nlayers + 1))
 
     def __variables(self, k):
         if k == 'SURFTEMP':
